@@ -215,6 +215,35 @@ def int_expr(txt, what):
     return sum(lit(p) for p in parts)
 
 
+NUM = r"[0-9_]+|(?:Self::)?[A-Z][A-Z0-9_]*"     # a literal, or a named constant of the same file
+
+
+def const_expr(txt, what, src, depth=0):
+    """int_expr that also follows named constants (`MAX_MSG_LEN`, `Self::MAX_PDU - Self::MIN_PDU - 4`) to their
+    definition `const NAME: T = <expr>;` in the same file: giving a literal a name does not change it"""
+    if depth > 8:
+        raise Untranslatable("%s: constant definitions nest too deeply: %r" % (what, txt))
+    total, sign = 0, 1
+    toks = re.findall(r"[+-]|[^+\-]+", txt)
+    if not toks:
+        raise Untranslatable("%s: empty constant expression" % what)
+    for t in toks:
+        t = t.strip()
+        if t == "+":
+            sign = 1
+        elif t == "-":
+            sign = -1
+        elif re.fullmatch(r"(?:Self::)?[A-Z][A-Z0-9_]*", t):
+            name = t.split("::")[-1]
+            d = one(r"\bconst %s\s*:\s*\w+\s*=\s*([^;]+);" % name, src, "%s: definition of %s" % (what, name))
+            total += sign * const_expr(d.group(1), what, src, depth + 1)
+        else:
+            total += sign * int_expr(t, what)
+    if total < 0:
+        raise Untranslatable("%s: negative constant %r" % (what, txt))
+    return total
+
+
 def write_if_changed(out, txt):
     old = open(out).read() if os.path.exists(out) else None
     if old != txt:
@@ -294,8 +323,8 @@ def gen_constants(repo, out):
     def src(rel):
         return strip_comments(open(os.path.join(repo, "src", rel), encoding="utf-8").read())
     ub = src("bgp/message/update_builder.rs")
-    max_pdu = int_expr(one(r"const MAX_PDU\s*:\s*usize\s*=\s*([^;]+);", ub, "UpdateBuilder::MAX_PDU").group(1), "MAX_PDU")
-    batch = int_expr(one(r"if compose_len > ([0-9_]+) \{", ub, "take_message batch threshold").group(1), "batch threshold")
+    max_pdu = const_expr(one(r"const MAX_PDU\s*:\s*usize\s*=\s*([^;]+);", ub, "UpdateBuilder::MAX_PDU").group(1), "MAX_PDU", ub)
+    batch = const_expr(one(r"if compose_len > (%s) \{" % NUM, ub, "take_message batch threshold").group(1), "batch threshold", ub)
     bmp = src("bmp/message.rs")
     bmp_coff = int_expr(one(r"const COFF\s*:\s*usize\s*=\s*([^;]+);", bmp, "bmp COFF").group(1), "bmp COFF")
     op = src("bgp/message/open.rs")
@@ -305,16 +334,16 @@ def gen_constants(repo, out):
     notif_coff = int_expr(one(r"const COFF\s*:\s*usize\s*=\s*([^;]+);", nt, "notification.rs COFF").group(1), "notif COFF")
     mm = src("bgp/message/mod.rs")
     rm = fn_body(mm, r"pub fn read_message<", "bgp/message/mod.rs")
-    rm_sig = one(r"pub fn read_message<[^{]*?\[u8;\s*([0-9_]+)\]", mm, "read_message buffer", re.S)
-    rm_buf = int_expr(rm_sig.group(1), "read_message buffer")
-    rm_first = int_expr(one(r"read_exact\(&mut buf\[\.\.([0-9_]+)\]\)", rm, "read_message first read").group(1), "first read")
-    rm_min = int_expr(one(r"if len < ([0-9_]+) \{", rm, "read_message lower bound").group(1), "lower bound")
-    rm_max = int_expr(one(r"if len > ([0-9_]+) \{", rm, "read_message upper bound").group(1), "upper bound")
+    rm_sig = one(r"pub fn read_message<[^{]*?\[u8;\s*(%s)\]" % NUM, mm, "read_message buffer", re.S)
+    rm_buf = const_expr(rm_sig.group(1), "read_message buffer", mm)
+    rm_first = const_expr(one(r"read_exact\(&mut buf\[\.\.(%s)\]\)" % NUM, rm, "read_message first read").group(1), "first read", mm)
+    rm_min = const_expr(one(r"if len < (%s) \{" % NUM, rm, "read_message lower bound").group(1), "lower bound", mm)
+    rm_max = const_expr(one(r"if len > (%s) \{" % NUM, rm, "read_message upper bound").group(1), "upper bound", mm)
     ss = src("bgp/fsm/session.rs")
     pf = fn_body(ss, r"fn parse_frame\(&mut self\)", "bgp/fsm/session.rs")
-    pf_min = int_expr(one(r"if len < ([0-9_]+) \{", pf, "parse_frame lower bound").group(1), "parse_frame lower bound")
+    pf_min = const_expr(one(r"if len < (%s) \{" % NUM, pf, "parse_frame lower bound").group(1), "parse_frame lower bound", ss)
     pf_hdr = int_expr(one(r"buf\.remaining\(\) >= ([0-9_ +]+) \{", pf, "parse_frame header peek").group(1), "parse_frame header peek")
-    pf_sub = int_expr(one(r"\(len as usize\) - ([0-9_]+)\)", pf, "parse_frame subtraction").group(1), "parse_frame subtraction")
+    pf_sub = const_expr(one(r"\(len as usize\) - (%s)\)" % NUM, pf, "parse_frame subtraction").group(1), "parse_frame subtraction", ss)
     vals = [("maxPdu", max_pdu, "`UpdateBuilder::MAX_PDU` (update_builder.rs)"),
             ("batchThreshold", batch, "`if compose_len > N` in `take_message` (update_builder.rs)"),
             ("bmpCoff", bmp_coff, "`const COFF` of bmp/message.rs (common header + per-peer header)"),
@@ -464,10 +493,20 @@ def main():
 
     # --- Header::msg_type ----------------------------------------------------
     msrc2 = files["bgp/message/mod.rs"]
-    b = fn_body(msrc2, r"pub fn msg_type\(&self\) -> MsgType \{\s*match self\.0", "bgp/message/mod.rs")
+    b = fn_body(msrc2, r"pub fn msg_type\(&self\) -> MsgType \{(?=\s*(match\s+)?(MsgType::from\(\s*)?self\.0\b)", "bgp/message/mod.rs")
     mt = by_name["bgp.message.mod.MsgType"]
     msg_arms = []
     msg_default_ok = False
+    if re.fullmatch(r"\s*(MsgType::from\(\s*self\.0\.as_ref\(\)\[18\]\s*\)|self\.0\.as_ref\(\)\[18\]\.into\(\))\s*", b):
+        # the function hands the type octet to MsgType's own From<u8> (the typeenum! table translated above):
+        # its arms are that table's rows, its default is the table's catch-all, which carries the value
+        if mt["ranges"]:
+            raise Untranslatable("Header::msg_type delegates to a MsgType with range variants")
+        msg_arms = [(val, idx) for idx, (val, _) in enumerate(mt["named"])]
+        msg_default_ok = True
+        b = ""
+    elif not re.match(r"\s*match self\.0\.as_ref\(\)\[18\]\s*\{", b):
+        raise Untranslatable("Header::msg_type: neither a match on octet 18 nor MsgType::from of it")
     # an arm may name several numbers (`5 | 128 => MsgType::RouteRefresh`): each of them is an arm of the table
     for m in re.finditer(r"((?:\w+\s*\|\s*)*\w+)\s*=>\s*MsgType::(\w+)(\((\w+)\))?", b):
         lhs, v, _, arg = m.groups()
